@@ -88,6 +88,9 @@ def gen_pd_cases(ctx):
              "delta": pick_delta(r, unit, n), "unit": unit, "all_pairs": r.random() < 0.4,
              "from_ref": r.random() < 0.5, "tol": 0.1}
         c.update(kw)
+        if stream in ("random", "stationary", "sizes", "grid"):
+            c["flavour"] = r.choice(mc.FLAVOURS)
+            c["preread"] = list(r.choice(mc.PREREADS))
         return c
     I = mc.mat_pose(mc.AXIS_ROTS[0], [0, 0, 0])
     Rz = [[0.0, -1.0, 0.0], [1.0, 0.0, 0.0], [0.0, 0.0, 1.0]]
@@ -128,6 +131,15 @@ def gen_pd_cases(ctx):
         est = noisy_copy(r, ref, 1.0, [0.0, 0.0, 0.0], "mixed")
         yield case("stationary", r.choice(["point_distance_error_ratio", "point_distance_error_ratio", "point_distance", "full"]),
                    ref, est, unit="f", from_ref=r.random() < 0.5)
+    sizes = [2, 3, 4, 7, 8, 9, 15, 16, 17, 31, 32, 33, 63, 64, 65, 127, 128, 129]
+    if T:
+        sizes += [255, 256, 257, 511, 512, 513, 1023, 1024, 1025, 4095, 4096, 4097]
+    for n in sizes:
+        ref = walk(r, n, 1.0, 0.3, stationary=0.05)
+        est = noisy_copy(r, ref, 1.0, [0.0, 0.0, 0.0], "mixed")
+        d = float(r.choice([1, 2, max(1, n - 1), max(1, n // 2)]))
+        yield case("sizes", r.choice(["trans_part", "full", "point_distance", "point_distance_error_ratio", "angle_deg"]),
+                   ref, est, unit="f", delta=d, all_pairs=r.random() < 0.5)
     for rel, n in (("trans_part", 600 if not T else 10000), ("point_distance_error_ratio", 600 if not T else 10000),
                    ("angle_rad", 200 if not T else 5000)):
         ref = walk(r, n, 1.0, 0.3, stationary=0.05)
@@ -207,13 +219,19 @@ def evo_pairs(case, driving_path):
         return [(int(i), int(j)) for i, j in p]
     except filters.FilterException:
         return None
+    except Exception as e:  # noqa (L12: reported through the comparison with process_data, never a harness crash)
+        return None
 
 
 def run_impl_pd(case):
     mode = case["mode"]
-    ref, est = mc.make_path(mode, case["ref"]), mc.make_path(mode, case["est"])
-    out = {"seen_ref": mc.seen_poses(ref), "seen_est": mc.seen_poses(est)}
-    out["res"] = run_rpe(case, ref, est)
+    fl, pre = case.get("flavour", "plain"), tuple(case.get("preread", ()))
+    out = {"seen_ref": mc.twin_poses(mode, case["ref"]), "seen_est": mc.twin_poses(mode, case["est"])}
+    try:
+        ref, est = mc.make_path(mode, case["ref"], flavour=fl, preread=pre), mc.make_path(mode, case["est"], flavour=fl, preread=pre)
+        out["res"] = run_rpe(case, ref, est)
+    except Exception as e:  # noqa (L12)
+        out["res"] = {"err": "EXC:" + type(e).__name__}
     n = len(case["ref"])
     if n == len(case["est"]):
         out["pairs"] = evo_pairs(case, mc.make_path(mode, case["ref"] if case["from_ref"] else case["est"]))
